@@ -471,8 +471,22 @@ class TreeCheck(object):
             got = self.take("Tree.__len__", si, flt, "", lambda: [len(tree)])
             if got is not None and got[0] != len(lvs):
                 self.fail("Tree.__len__.leaf_count", "Tree.__len__", si, flt, "", "len(tree) = %r, the tree has %d leaves" % (got[0], len(lvs)))
+            # ... also when a (now stale) bipartition encoding is stored on the tree and when leaves carry no taxon
+            t2, _ = build(self.shape)
+            got2 = self.take("Tree.__len__", si, flt, "encoded-then-edited", lambda: self._len_after_edit(t2))
+            if got2 is not None and got2[0] != got2[1]:
+                self.fail("Tree.__len__.leaf_count", "Tree.__len__", si, flt, "encoded-then-edited",
+                          "after encode_bipartitions() and two taxon-less children added below the first leaf: len(tree) = %r, the tree has %d leaves" % (got2[0], got2[1]))
         if w("Tree.apply"):
             self._apply("Tree.apply", si, seed, lambda b, a, l: tree.apply(before_fn=b, after_fn=a, leaf_fn=l))
+
+    @staticmethod
+    def _len_after_edit(t2):
+        t2.encode_bipartitions(suppress_unifurcations=False, collapse_unrooted_basal_bifurcation=False)
+        first = S.leaves(t2._seed_node)[0]
+        first.new_child()
+        first.new_child()
+        return [len(t2), len(S.leaves(t2._seed_node))]
 
 
 # ----------------------------------------------------------------------------- driver
